@@ -34,6 +34,9 @@ CHECKS = {
  'C10': dict(
    text='For all complex pulse currents in a box (three scales in the thorough tier), all positive powers, requested powers and distances and a symbolic azimuth, z3 decides on catalogue geometries (free space and ideal ground) that the far field is the MININEC radiation sum written from pulse geometry (linear real arithmetic), that dBi and V/m tables describe the same field, scale with sqrt(P_req/P)/r, repeat after 360 degrees and rotate rigidly at the zenith.',
    design='DESIGN.md 3 (C10)'),
+ 'C11': dict(
+   text='Non-interference: with symbolic permittivity, conductivity, height and boundary the matrix fill (over unknown integrals), loads and right-hand side are the very terms of the ideal-ground model. Limits: the real-ground far-field formula at surface impedance 0 equals the ideal-ground formula for all pulse currents; Medium.impedance satisfies |z|^4 (eps^2 + sigma^2/t^2) = 1 and |z|^2 <= t/sigma for all eps, sigma, f (complex sqrt by its defining equations). Splitting: for ALL cut positions u and all currents a medium split into two with identical constants gives the same field (first/second/third of up to three media, only medium, linear and circular boundary, with and without radials where documented); a further medium with ARBITRARY constants beyond every reflection point is never selected. Each comparison reflection point > boundary forks, one path per assignment of pulses to media; z3 decides per path (LRA). Bounded by catalogue geometries, three directions and three concrete grounds.',
+   design='DESIGN.md 3 (C11), 9'),
  'C12': dict(
    text='Wire end coordinates are solver variables (abstract length, generic position): for every feasible coincidence pattern of the ends of up to 3 (thorough 4) wires with 1..3 segments, with and without ground, count and numbering are compared with the topology formula and the placement of every pulse on its two segments is decided by z3 for all coordinates of the class; the 1/1000 matching tolerance is decided with the exact norm on a two-wire frame.',
    design='DESIGN.md 3 (C12), 2.4'),
